@@ -252,19 +252,12 @@ impl Assembler {
         }
         let (module_procs, module_callset) = context.complete_module()?;
 
-        // the module compiled: register the aliases of its re-exported procedures
-        for (alias_proc_id, ref_proc_id) in proc_aliases {
-            self.proc_cache
-                .try_borrow_mut()
-                .map_err(|_| AssemblyError::InvalidCacheLock)?
-                .insert_proc_alias(alias_proc_id, ref_proc_id)?;
-        }
-
-        // add the compiled procedures to the assembler's cache. the procedures are added to the
-        // cache only if:
+        // determine which of the compiled procedures are to be added to the assembler's cache.
+        // the procedures are added to the cache only if:
         // - a procedure is exported from the module, or
         // - a procedure is present in the combined callset - i.e., it is an internal procedure
         //   which has been invoked via a local call instruction.
+        let mut cached_procs = Vec::new();
         for (proc_index, proc) in module_procs.into_iter().enumerate() {
             if proc.is_export() {
                 proc_roots.push(proc.mast_root());
@@ -273,13 +266,45 @@ impl Assembler {
             if proc.is_export() || module_callset.contains(&proc.mast_root()) {
                 // build the procedure ID if this module has the library path
                 let proc_id = build_procedure_id(path, &proc, proc_index);
-
-                // this is safe because we fail if the cache is borrowed.
-                self.proc_cache
-                    .try_borrow_mut()
-                    .map_err(|_| AssemblyError::InvalidCacheLock)?
-                    .insert(proc, proc_id)?;
+                cached_procs.push((proc, proc_id));
             }
+        }
+
+        // this is safe because we fail if the cache is borrowed.
+        let mut proc_cache =
+            self.proc_cache.try_borrow_mut().map_err(|_| AssemblyError::InvalidCacheLock)?;
+
+        // a module is added to the cache either completely or not at all: if some of its procedures
+        // stayed behind after an insertion error, a later request depending on this module would
+        // succeed on this assembler instance although it fails on a fresh one. thus, we first make
+        // sure that every insertion will succeed.
+        for (i, (proc, proc_id)) in cached_procs.iter().enumerate() {
+            if proc_id.is_some_and(|id| proc_cache.contains_id(&id)) {
+                return Err(AssemblyError::duplicate_proc_id(&proc_id.unwrap()));
+            }
+            let conflicts_with_cached = proc_cache
+                .get_by_hash(&proc.mast_root())
+                .is_some_and(|cached_proc| cached_proc.num_locals() != proc.num_locals());
+            let conflicts_within_module = cached_procs[..i].iter().any(|(other, _)| {
+                other.mast_root() == proc.mast_root() && other.num_locals() != proc.num_locals()
+            });
+            if conflicts_with_cached || conflicts_within_module {
+                return Err(AssemblyError::conflicting_num_locals(proc.name()));
+            }
+        }
+        for (alias_proc_id, _) in proc_aliases.iter() {
+            if proc_cache.contains_id(alias_proc_id) {
+                return Err(AssemblyError::duplicate_proc_id(alias_proc_id));
+            }
+        }
+
+        // add the compiled procedures to the cache, and register the aliases of the re-exported
+        // procedures
+        for (proc, proc_id) in cached_procs {
+            proc_cache.insert(proc, proc_id)?;
+        }
+        for (alias_proc_id, ref_proc_id) in proc_aliases {
+            proc_cache.insert_proc_alias(alias_proc_id, ref_proc_id)?;
         }
 
         Ok(proc_roots)
